@@ -88,7 +88,10 @@ class DatasetGroup:
         if len(model_dimensions) != 1:
             return False
         global_dimensions = set()
-        for dataset in data.values():
+        for label, dataset in data.items():
+            if label not in self.dataset_models:
+                # the data of other dataset groups do not decide whether this group is linkable
+                continue
             global_dimensions |= {
                 dim for dim in dataset.data.coords if dim not in model_dimensions
             }
